@@ -1093,6 +1093,40 @@ def multi_check(multi):
     return out
 
 
+def search_rings(ctx, n):
+    """360-degree CylinderSegment with a bore = Cylinder(r2) - Cylinder(r1): observers in the bore (and on its rim)
+    within a few ulps of the planes of the bases, seen from a rotated and shifted magnet; J must be pol or 0"""
+    rng = ctx.rng
+    for _ in range(n):
+        r1 = fl(rng, 0.2, 1.5)
+        r2 = r1 + fl(rng, 0.2, 2)
+        h = fl(rng, 0.3, 3)
+        p1 = rng.choice((0, -180, 90))
+        pol = nz_pol(rng)
+        pts = []
+        for _ in range(8):
+            rho = r1 * rng.choice((1.0, rng.uniform(0.05, 0.95), rng.uniform(0.05, 0.95)))
+            a = rng.uniform(-math.pi, math.pi)
+            zz = rng.choice((-1, 1)) * nudge(h / 2, rng.randint(-2, 2))
+            pts.append(([rho * math.cos(a), rho * math.sin(a), zz], "full-cylinder-bore-base"))
+        scn = {"kind": "fields", "cls": "CylinderSegment", "kwargs": {"dimension": [r1, r2, h, p1, p1 + 360], "polarization": pol},
+               "pos": [fl(rng, -3, 3) for _ in range(3)], "rotvec": [rng.uniform(-3, 3) for _ in range(3)],
+               "pol": pol, "points": pts, "in_out": "auto"}
+        bad = scenario_check(scn)
+        ctx.case(json.dumps(scn, sort_keys=True), True)
+        ctx.count("oracle_rows", len(pts))
+        ctx.bump("search:CylinderSegment:full-cylinder-bore-base", len(pts))
+        seen = set()
+        for row, clause, detail in bad:
+            if clause in seen:
+                continue
+            seen.add(clause)
+            small, batch = shrink_scenario(scn, row, clause)
+            ctx.impl_fail(f"{clause}/CylinderSegment:{coarse('CylinderSegment', pts[row][1], clause)}",
+                          f"360-degree CylinderSegment ring, observer in the bore at a base plane ({batch}): {detail}; "
+                          f"local point {small['points'][0][0]}, {json.dumps(small['kwargs'])}", small)
+
+
 # ---------------------------------------------------------------------- attributes
 def attr_check(h, cls_name="Cuboid"):
     """None or (index, trigger, detail): after every assignment both attributes are unset or pol = mu_0 * mag"""
@@ -1185,6 +1219,7 @@ def run(ctx):
     big = bool(ctx.broken)
     mult = 5 if big else 1
     run_guarded(ctx, lambda: search_fields(ctx, ctx.n(12, 100) * mult), "C02 field oracle")
+    run_guarded(ctx, lambda: search_rings(ctx, ctx.n(400, 6000) * mult), "C02 ring oracle")
     run_guarded(ctx, lambda: search_two_meshes(ctx, ctx.n(6, 60) * mult), "C02 several sources")
     run_guarded(ctx, lambda: search_attrs(ctx, ctx.n(60, 600) * mult), "C02 attribute oracle")
 
